@@ -146,6 +146,9 @@ class C19(core.Prop):
                 sc = sc[:cap]
             for j, m in enumerate(sc):
                 cases.append({"kinds": kinds, "moves": m, "stalled": stalled})
+                if j % 12 == 9:
+                    # the same schedule with the same bytes every time: a repeated command is as much a message as the first
+                    cases.append({"kinds": kinds, "moves": m, "stalled": stalled, "same": 1 + (j // 12) % 2})
                 if j % 12 == 5:
                     # the same schedule with every other message longer than 64 KiB
                     cases.append({"kinds": kinds, "moves": m, "stalled": stalled, "big": True})
@@ -171,7 +174,7 @@ class C19(core.Prop):
             return "implementation %s %s" % (obs["status"], obs.get("detail", ""))
         if not isinstance(mout, list):
             return "model rejected input"
-        from harness.impl.c19 import msg_k, shown
+        from harness.impl.c19 import content_k, shown
         pos = 0
         for i, (mv, st) in enumerate(zip(c["moves"], obs["steps"])):
             if st["raised"]:
@@ -180,7 +183,7 @@ class C19(core.Prop):
             if pos == 0:
                 continue
             m = mout[pos - 1]
-            want = ["".join(shown(msg_k(k, c.get("big")).to_string().decode("latin1"), c.get("big")) for k in ks) for ks in m[0]]
+            want = ["".join(shown(content_k(c, k).to_string().decode("latin1"), c.get("big")) for k in ks) for ks in m[0]]
             if st["out"] != want:
                 return "after move %d %s: streams hold %s, model %s" % (i, mv, [len(x) for x in st["out"]], [len(x) for x in want])
             if st["nready_after"] != m[1]:
@@ -217,7 +220,7 @@ class C19(core.Prop):
         for mv in c["moves"]:
             if mv[0] == "route":
                 per[mv[1]] = per.get(mv[1], 0) + 1
-        return core.sha([c["kinds"], c["moves"]]) if any(v >= 2 for v in per.values()) else None
+        return core.sha([c["kinds"], c["moves"], c.get("same"), c.get("big")]) if any(v >= 2 for v in per.values()) else None
 
     def histogram(self, cases, obs):
         h = {"capped_enumerations": getattr(self, "capped", {})}
